@@ -224,6 +224,14 @@ func c12TokStr(r *core.Rand) string {
 		return "x-{{matrix.arch}}-{{matrix.os}}"
 	case 2:
 		return "{{matrix.os}"
+	case 4:
+		if r.Intn(3) == 0 {
+			// extra braces around a token: the token is still the innermost {{…}}
+			if c12Mode == 0 {
+				return core.Pick(r, []string{"echo {{{matrix}}}", "{{{{{matrix}}", "{\"a\":{{{matrix}}}}"})
+			}
+			return core.Pick(r, []string{"echo {{{matrix.os}}}", "{{{ matrix.arch }}", "{\"a\":{{{matrix.os}}}}", "{{{matrix.zz}}}"})
+		}
 	case 3:
 		if r.Intn(3) == 0 {
 			// a backslash right before a token (Windows and UNC paths): the token is a token, the backslash stays
@@ -395,6 +403,21 @@ func c12StepLevel(c *ctx, rng *core.Rand, _ []*core.Session, n int) error {
 						c.res.Fail(core.OracleFailure{What: "a token names a dimension the permutation lacks (" + mm[0] + "), but the step was interpolated without error", Input: desc, Got: firstDiff(vl.Enc(after), vl.Enc(before))})
 					}
 				}
+			}
+		}
+		// ...and the converse, independent of the transformer too: when every well-formed token in scope names a
+		// dimension of the permutation, the call succeeds (inserted values, token-shaped or not, are not looked at again)
+		if ierr != nil {
+			allKnown := true
+			for str := range visited {
+				for _, mm := range c12TokenRE.FindAllStringSubmatch(str, -1) {
+					if _, ok := perm[strings.TrimPrefix(mm[1], ".")]; !ok {
+						allKnown = false
+					}
+				}
+			}
+			if allKnown {
+				c.res.Fail(core.OracleFailure{What: "the call failed although every token in scope names a dimension of the permutation", Input: desc, Got: ierr.Error()})
 			}
 		}
 		switch {
